@@ -2,7 +2,7 @@
 """Regenerates /verif/MANIFEST.json from the table below (kept valid at all times)."""
 import json, subprocess, sys
 
-TECH = "solver-based bounded symbolic execution of go/ssa (z3 QF_BV)"
+TECH = "solver-based bounded symbolic execution of go/ssa (z3 QF_BV; a sample of the queries re-answered by cvc5 and compared)"
 LEVEL = "bounded symbolic execution of the real code's SSA (go/ssa of /repo's working tree); for every explored path the solver decides path-condition AND NOT assertion over all values of the symbolic inputs within the stated bounds; counterexamples are replayed against the natively compiled code before being reported"
 claimed = {
  "C13": ("DESIGN.md §4 C13", "oracle = Go 1.23.5 path/filepath (Linux) and its mechanically retargeted Windows sources (cmd/genwin); trusted: symgo interpreter (cross-validated natively on every path), go/ssa, z3"),
@@ -24,7 +24,7 @@ man = {
  "setup_cmd": "cd /verif && ./setup.sh",
  "hooks": {"guard": "verif", "enable": "no source hooks are committed to /repo: verification helpers are injected as overlay files from /verif/overlay (go/packages Overlay for the symbolic executor, go build -overlay for the native replay binary)",
            "baseline_off_cmd": "for m in . mage; do (cd /repo/$m && go test -mod=mod -json -vet=off -count=1 -timeout 25m ./...); done", "source_commits": [], "add_only": True},
- "engines": [{"name": "symgo", "path": "/verif/engine", "serves_properties": sorted(claimed), "kind_free_text": "symbolic executor for Go SSA (go/ssa) with z3 (QF_BV) as decision procedure; re-execution DFS over solver-decided branches; scheduler for interpreted goroutines; native replay of every sequential path"}],
+ "engines": [{"name": "symgo", "path": "/verif/engine", "serves_properties": sorted(claimed), "kind_free_text": "symbolic executor for Go SSA (go/ssa) with z3 (QF_BV) as decision procedure and cvc5 as second solver on a sample of the queries; re-execution DFS over solver-decided branches; scheduler for interpreted goroutines; native replay of every sequential path"}],
  "checks": checks,
  "not_applicable": [{"property_id": p["id"], "reason": na_reason.get(p["id"], "check not built yet (engine and harness under construction); to be decided by the same symbolic executor")} for p in props if p["id"] not in claimed],
  "notes": "see DESIGN.md; known findings in known_findings.json; exit 3 = inconclusive (never a pass, never a violation)",
